@@ -55,6 +55,7 @@ pub struct Cx {
     pub probes: BTreeMap<String, u64>,
     pub triggers: BTreeSet<String>,
     pub max_ticks_per_kib: u64,
+    pub max_peak_bytes: usize,
     pub hash_order_class: u64,
 }
 
@@ -74,6 +75,7 @@ impl Cx {
             probes: BTreeMap::new(),
             triggers: BTreeSet::new(),
             max_ticks_per_kib: 0,
+            max_peak_bytes: 0,
             hash_order_class: 0,
         }
     }
@@ -219,6 +221,7 @@ pub struct RunResult {
     pub faults: BTreeMap<String, u64>,
     pub probes: BTreeMap<String, u64>,
     pub max_ticks_per_kib: u64,
+    pub max_peak_bytes: usize,
     pub hash_order_class: u64,
 }
 
@@ -273,6 +276,7 @@ fn exec_run_here(scn: &dyn Scenario, tape: Tape, tier: Tier, render: bool, set_k
         faults: std::mem::take(&mut cx.faults),
         probes: std::mem::take(&mut cx.probes),
         max_ticks_per_kib: cx.max_ticks_per_kib,
+        max_peak_bytes: cx.max_peak_bytes,
         hash_order_class: cx.hash_order_class,
     }
 }
@@ -572,6 +576,7 @@ struct Agg {
     probes: BTreeMap<String, u64>,
     hash_orders: BTreeSet<u64>,
     max_ticks_per_kib: u64,
+    max_peak_bytes: usize,
     violations: Vec<(usize, u64, Vec<TNode>, Violation)>, // (scenario idx, run idx, tape, violation)
     violation_count: u64,
     suppressed: u64,
@@ -603,6 +608,7 @@ impl Agg {
         }
         self.hash_orders.insert(r.hash_order_class);
         self.max_ticks_per_kib = self.max_ticks_per_kib.max(r.max_ticks_per_kib);
+        self.max_peak_bytes = self.max_peak_bytes.max(r.max_peak_bytes);
         if audit {
             self.audit.push((si, ri, r.digest));
         }
@@ -638,6 +644,7 @@ impl Agg {
         }
         self.hash_orders.extend(o.hash_orders);
         self.max_ticks_per_kib = self.max_ticks_per_kib.max(o.max_ticks_per_kib);
+        self.max_peak_bytes = self.max_peak_bytes.max(o.max_peak_bytes);
         self.violations.extend(o.violations);
         self.violation_count += o.violation_count;
         self.suppressed += o.suppressed;
@@ -1016,6 +1023,7 @@ pub fn run_check(spec: &CheckSpec, tier: Tier) -> i32 {
             "probes": agg.probes,
             "hash_orders_distinct": agg.hash_orders.len(),
             "max_ticks_per_kib": agg.max_ticks_per_kib,
+            "max_peak_bytes_held_by_one_guarded_call": agg.max_peak_bytes,
             "simulated_time": "n/a: the system under test has no clock, timer or timeout",
             "real_components": spec.real_components,
             "stubbed_components": spec.stubbed_components,
